@@ -7,8 +7,8 @@ from vlib import roles, truthy
 from vlib.core import AnalysisError, Repo, Report, norm, own_nodes
 
 EXPLANATION = (
-    "Abstract interpretation of the in-memory stores (vlib/roles.py): the three triple indexes are discovered by role "
-    "from add(); their declared key orders must be permutations of S,P,O; remove() must delete the same paths; "
+    "Abstract interpretation of the in-memory stores (vlib/h_c01.py, value flow through aliases, get/setdefault and the private methods of the "
+    "class): the three triple indexes are discovered by role from add(); their declared key orders must be permutations of S,P,O; remove() must delete the same paths; "
     "triples() is interpreted once for each of the 8 bound/unbound pattern shapes and every yield must be justified "
     "by a complete membership chain in one index, carry the pattern term in every bound position, enumerate every "
     "unbound position from an index level, and (context-aware store) pass the per-triple context filter. Also: "
@@ -19,11 +19,10 @@ EXPLANATION = (
 )
 
 
-def run(repo: Repo, rep: Report) -> None:
-    rep.extra["explanation"] = EXPLANATION
-    mem = repo.mod("rdflib.plugins.stores.memory")
-    gm = repo.mod("rdflib.graph")
+def _rules_abd(repo: Repo, rep: Report) -> None:
+    from vlib import h_c01 as H
 
+    mem = repo.mod("rdflib.plugins.stores.memory")
     # ------------------------------------------------------------------ (a)
     rep.rule("C01.a-index-orders",
              "each of the three indexes is written by add() through a permutation of (S,P,O), all three on the path "
@@ -37,7 +36,9 @@ def run(repo: Repo, rep: Report) -> None:
              "on the default store every loop of triples() that (transitively) yields iterates a snapshot "
              "(list/tuple/sorted(...) or .copy()), and remove() never deletes an inner index level (only depth-3 entries)", floor=10)
     for cls, ctx_aware in (("Memory", True), ("SimpleMemory", False)):
-        orders = roles.index_orders(mem, cls)
+        # which attribute is keyed by which components at which level is a fact about the values that reach the subscripts, whatever the
+        # spelling (try/except ladder, setdefault chain, a helper that returns the next level, local aliases): vlib/h_c01.StoreFlow
+        orders, conflicts = H.index_orders(mem, cls)
         rep.analysed("rdflib/plugins/stores/memory.py:%s.add" % cls, "rdflib/plugins/stores/memory.py:%s.remove" % cls, "rdflib/plugins/stores/memory.py:%s.triples" % cls)
         if len(orders) != 3:
             raise AnalysisError("%s: expected 3 indexes discovered from add(), found %s" % (cls, orders))
@@ -45,89 +46,50 @@ def run(repo: Repo, rep: Report) -> None:
         firsts = sorted(o[0] for o in orders.values())
         rep.ob("C01.a-index-orders", mem, cls + ".add", "indexes %s" % {k: "".join(v) for k, v in orders.items()}, firsts == ["O", "P", "S"],
                "one index per leading position S, P, O" if firsts == ["O", "P", "S"] else "indexes do not lead with S, P and O each: %s" % firsts, node=mem.func(cls + ".add"))
-        # all three index writes happen at function top level (or under try) on the new-triple path
         addf = mem.func(cls + ".add")
         for attr, order in orders.items():
-            rep.ob("C01.a-index-orders", mem, cls + ".add", "write %s[%s]" % (attr, "][".join(order)), True, "declared order " + "".join(order), node=addf)
-        # remove: del statements
+            other = [c[2] for c in conflicts if c[0] == attr]
+            rep.ob("C01.a-index-orders", mem, cls + ".add", "write %s[%s]" % (attr, "][".join(order)), not other,
+                   "declared order " + "".join(order) if not other else "add() writes %s through the keys %s as well: the pattern shapes that read it by %s miss those entries" % (attr, other, "".join(order)), node=addf)
+        # remove: what it deletes, for a triple it obtained from self.triples(), itself or through the methods of the class it hands the triple to
         rmf = mem.func(cls + ".remove")
-        role_of = {}
-        src_ok = False
-        for n in ast.walk(rmf):
-            if isinstance(n, ast.For) and isinstance(n.iter, ast.Call) or isinstance(n, ast.For):
-                it = n.iter
-                inner = it.args[0] if (isinstance(it, ast.Call) and isinstance(it.func, ast.Name) and it.func.id == "list" and it.args) else it
-                if isinstance(inner, ast.Call) and norm(inner.func) == "self.triples":
-                    src_ok = True
-                    # unpack either in the target or in the first body statement
-                    tgt = n.target
-                    if isinstance(tgt, ast.Tuple) and isinstance(tgt.elts[0], ast.Tuple) and len(tgt.elts[0].elts) == 3:
-                        for r, e in zip(roles.ROLES, tgt.elts[0].elts):
-                            role_of[norm(e)] = r
-                    else:
-                        for st in n.body:
-                            if isinstance(st, ast.Assign) and isinstance(st.targets[0], ast.Tuple) and len(st.targets[0].elts) == 3 and isinstance(st.value, ast.Name):
-                                for r, e in zip(roles.ROLES, st.targets[0].elts):
-                                    role_of[norm(e)] = r
-        rep.ob("C01.a-index-orders", mem, cls + ".remove", "removes the triples enumerated by self.triples(pattern)", src_ok and len(role_of) == 3,
-               "wildcards expanded through triples()" if src_ok and len(role_of) == 3 else "remove() does not iterate self.triples(pattern) and unpack (s,p,o)", node=rmf)
-        dels: dict[str, tuple] = {}
+        fl = H.StoreFlow(mem, cls, H.context_key_methods(mem, cls))
+        fl.enter("remove", {})
+        src_ok = any(e.kind == "enumerate" for e in fl.events) and fl.unpacked == set(H.ROLES)
+        rep.ob("C01.a-index-orders", mem, cls + ".remove", "removes the triples enumerated by self.triples(pattern)", src_ok,
+               "wildcards expanded through triples()" if src_ok else "remove() does not iterate self.triples(pattern) and unpack (s,p,o)", node=rmf)
+        dels: dict[str, set] = {}
         shallow = []
-        for n in ast.walk(rmf):
-            if isinstance(n, ast.Delete):
-                for t in n.targets:
-                    keys = []
-                    e = t
-                    while isinstance(e, ast.Subscript):
-                        keys.append(norm(e.slice))
-                        e = e.value
-                    a = roles.self_attr(e)
-                    if a in orders:
-                        keys.reverse()
-                        rr = tuple(role_of.get(k, "?") for k in keys)
-                        if len(keys) == 3:
-                            dels[a] = rr
-                        else:
-                            shallow.append((n, a, rr))
-            if isinstance(n, ast.Call) and isinstance(n.func, ast.Attribute) and n.func.attr in ("pop", "popitem", "clear"):
-                e = n.func.value
-                depth = 0
-                while isinstance(e, ast.Subscript):
-                    depth += 1
-                    e = e.value
-                a = roles.self_attr(e)
-                if a in orders:
-                    if depth == 2 and n.func.attr == "pop":
-                        pass
-                    else:
-                        shallow.append((n, a, ("depth", depth)))
+        del_stmts = []
+        for e in fl.events:
+            if e.attr not in orders:
+                continue
+            if e.kind in ("del", "pop"):
+                del_stmts.append(e.stmt)
+                if len(e.keys) == 3:
+                    dels.setdefault(e.attr, set()).add(e.keys)
+                else:
+                    shallow.append((e.node, e.attr, e.keys))
+            elif e.kind in ("popitem", "clear"):
+                shallow.append((e.node, e.attr, ("depth", len(e.keys))))
         for attr, order in orders.items():
-            ok = dels.get(attr) == order
+            ok = dels.get(attr) == {order}
             rep.ob("C01.a-index-orders", mem, cls + ".remove", "del %s[%s]" % (attr, "][".join(order)), ok,
-                   "deletes the declared path" if ok else "remove() deletes %s with keys %s but add() writes %s: the index keeps a stale entry that the pattern shapes reading it still see" % (attr, dels.get(attr), order), node=rmf)
+                   "deletes the declared path" if ok else "remove() deletes %s with keys %s but add() writes %s: the index keeps a stale entry that the pattern shapes reading it still see" % (attr, sorted(dels.get(attr, ())) or None, order), node=rmf)
         # --- bulk clears: an index is never emptied alone
         clears: dict[int, set] = {}
         cnode: dict[int, ast.AST] = {}
-        for n in ast.walk(rmf):
-            if isinstance(n, ast.Call) and isinstance(n.func, ast.Attribute) and n.func.attr == "clear" and roles.self_attr(n.func.value) in orders:
-                blk = id(mem.parent.get(id(mem.parent.get(id(n)))))
-                clears.setdefault(blk, set()).add(roles.self_attr(n.func.value))
-                cnode.setdefault(blk, n)
-            if isinstance(n, ast.Assign) and any(roles.self_attr(t) in orders for t in n.targets):
-                blk = id(mem.parent.get(id(n)))
-                for t in n.targets:
-                    if roles.self_attr(t) in orders:
-                        clears.setdefault(blk, set()).add(roles.self_attr(t))
-                        cnode.setdefault(blk, n)
+        for e in fl.events:
+            if e.attr in orders and not e.keys and e.kind in ("clear", "rebind"):
+                blk = id(mem.parent.get(id(e.stmt)))
+                clears.setdefault(blk, set()).add(e.attr)
+                cnode.setdefault(blk, e.node)
         for blk, got in clears.items():
             okc = got == set(orders)
             rep.ob("C01.a-index-orders", mem, cls + ".remove", cnode[blk], okc,
                    "all three indexes emptied together" if okc else "only %s are emptied, %s keeps its entries: the pattern shapes reading it still return the removed triples" % (sorted(got), sorted(set(orders) - got)), node=cnode[blk])
         # --- all deletes of the three indexes sit in one block
-        blocks = set()
-        for n in ast.walk(rmf):
-            if isinstance(n, ast.Delete) and any(roles.self_attr(_root(t)) in orders for t in n.targets):
-                blocks.add(id(mem.parent.get(id(n))))
+        blocks = {id(mem.parent.get(id(st))) for st in del_stmts}
         rep.ob("C01.a-index-orders", mem, cls + ".remove", "the three index deletes are in one block", len(blocks) == 1,
                "indexes updated together" if len(blocks) == 1 else "index deletes are spread over %d blocks: a path can update some indexes and not others" % len(blocks), node=rmf)
         if cls == "Memory":
@@ -138,12 +100,12 @@ def run(repo: Repo, rep: Report) -> None:
                 rep.ob("C01.d-snapshot-before-yield", mem, cls + ".remove", "no inner index level is pruned", True, "only depth-3 entries are deleted, outer key snapshots stay valid keys", node=rmf)
 
         # ------------------------------------------------------------ shapes
-        ti = roles.TriplesInterp(mem, cls, orders, ctx_aware)
+        ti = H.PatternInterp(mem, cls, orders, ctx_aware)
         per_shape = {}
-        for b in roles.shapes():
+        for b in H.shapes():
             before = len(ti.yields)
             ti.run_shape(b)
-            shape = "".join(r if b[r] else "-" for r in roles.ROLES)
+            shape = "".join(r if b[r] else "-" for r in H.ROLES)
             per_shape[shape] = len(ti.yields) - before
         for shape, n in sorted(per_shape.items()):
             rep.ob("C01.b-pattern-shapes", mem, cls + ".triples", "shape %s reaches %d yield(s)" % (shape, n), n > 0,
@@ -176,6 +138,10 @@ def run(repo: Repo, rep: Report) -> None:
             rep.ob("C01.b-pattern-shapes", mem, cls + ".triples", t, False,
                    "boundness of a pattern position decided by truthiness: a bound falsy term (Literal(0), Literal('')) is treated as a wildcard", node=t)
 
+
+def _rules_c(repo: Repo, rep: Report) -> None:
+    mem = repo.mod("rdflib.plugins.stores.memory")
+    gm = repo.mod("rdflib.graph")
     # ------------------------------------------------------------------ (c)
     rep.rule("C01.c-boundness-by-identity",
              "in the in-memory stores and the Graph add/remove/pattern methods, None-ness of terms and contexts is decided by identity", floor=15)
@@ -188,6 +154,9 @@ def run(repo: Repo, rep: Report) -> None:
         truthy.scan(repo, rep, "C01.c-boundness-by-identity", gm, gm.func(q), q)
         rep.analysed("rdflib/graph.py:" + q)
 
+
+def _rules_e(repo: Repo, rep: Report) -> None:
+    mem = repo.mod("rdflib.plugins.stores.memory")
     # ------------------------------------------------------------------ (e)
     rep.rule("C01.e-default-contexts-copy-on-write",
              "the per-triple context map only ever stores dict displays or .copy() results, and no statement mutates "
@@ -246,67 +215,172 @@ def run(repo: Repo, rep: Report) -> None:
             if isinstance(n, ast.Assign) and any(isinstance(t, ast.Subscript) and roles.self_attr(t.value) == dflt for t in n.targets):
                 rep.ob("C01.e-default-contexts-copy-on-write", mem, "Memory." + m, n, False, "writes into the shared default-context dict", node=n)
 
+
+def _rules_h(repo: Repo, rep: Report) -> None:
+    from vlib import h_c01 as H
+    from vlib.cfg import CFG
+
+    mem = repo.mod("rdflib.plugins.stores.memory")
     # ------------------------------------------------------------------ (h)
     rep.rule("C01.h-context-maps-updated-together",
              "the per-triple context map (read by the seven bound shapes through the context filter) and the per-context triple set (read by "
-             "the all-unbound shape and len()) are updated together: every normal path of __add_triple_context records the context in the "
-             "triple's map and adds the triple to that context's set; every normal path of __remove_triple_context removes both", floor=4)
-    from vlib.cfg import CFG as _CFG
+             "the all-unbound shape and len()) are updated together: every normal path of add() - through the methods of the store it calls - "
+             "records the key of the requested context in the triple's map and adds the triple to that context's set; the method that takes "
+             "the triple out of a context's set (the one remove() hands the triple to) removes the same key from the triple's map on every normal path", floor=4)
+    cls = "Memory"
+    meths = mem.methods(cls)
+    keym = H.context_key_methods(mem, cls)
+    if not keym:
+        raise AnalysisError("Memory: the method that turns the `context` argument of triples()/remove()/__len__() into the key of the context is not recognised")
+    addf = mem.func(cls + ".add")
+    ps = [a.arg for a in addf.args.posonlyargs + addf.args.args]
+    fl = H.StoreFlow(mem, cls, keym)
+    fl.enter("add", {ps[1]: {H.TRIPLE}})
+    index_attrs = {e.attr for e in fl.events if e.kind == "write" and len(e.keys) == 3 and all(k in H.ROLES for k in e.keys)}
+    set_adds = [e for e in fl.events if e.kind == "mut" and e.how == "add" and H.TRIPLE in e.arg and len(e.keys) == 1]
+    cts = {e.attr for e in set_adds}
+    if len(cts) != 1:
+        raise AnalysisError("Memory.add: the per-context triple set (the attribute add() files the triple in, by context key) is not recognised: %s" % sorted(cts))
+    ct = cts.pop()
+    map_writes = [e for e in fl.events if e.kind == "write" and e.attr != ct and e.attr not in index_attrs and e.keys == ("T", "K")]
 
-    ct = None
-    for n in own_nodes(init):
-        if isinstance(n, (ast.AnnAssign, ast.Assign)):
-            t = n.target if isinstance(n, ast.AnnAssign) else n.targets[0]
-            a = roles.self_attr(t)
-            if a and "contexttriples" in a.lower():
-                ct = a
-    if ct is None:
-        raise AnalysisError("Memory.__init__: per-context triple set attribute not found")
-    addf = mem.func("Memory.__add_triple_context")
-    g = _CFG(addf)
-    params = [a.arg for a in addf.args.args]
-    ctxvar = None
-    for n in own_nodes(addf):
-        if isinstance(n, ast.Assign) and isinstance(n.value, ast.Call) and "ctx_to_str" in norm(n.value.func):
-            ctxvar = norm(n.targets[0])
-    if ctxvar is None:
-        raise AnalysisError("Memory.__add_triple_context: context key variable not found")
-    set_adds = {g.node_of(c, mem) for c in own_nodes(addf) if isinstance(c, ast.Call) and isinstance(c.func, ast.Attribute) and c.func.attr == "add"
-                and isinstance(c.func.value, ast.Subscript) and roles.self_attr(c.func.value.value) == ct and norm(c.func.value.slice) == ctxvar}
-    ok = bool(set_adds) and g.exit not in g.reach(g.entry, avoid=set_adds)
-    rep.ob("C01.h-context-maps-updated-together", mem, "Memory.__add_triple_context", "self.%s[%s].add(triple) on every path" % (ct, ctxvar), ok,
-           "" if ok else "a path returns without adding the triple to the requested context's triple set: len() and the all-unbound pattern miss it", node=addf)
-    map_writes = set()
-    for n in own_nodes(addf):
-        if isinstance(n, ast.Assign):
-            for t in n.targets:
-                if isinstance(t, ast.Subscript) and norm(t.slice) == ctxvar and not roles.self_attr(t.value):
-                    map_writes.add(g.node_of(n, mem))
-            if isinstance(n.value, ast.Dict) and any(norm(k) == ctxvar for k in n.value.keys if k is not None):
-                map_writes.add(g.node_of(n, mem))
-    ok = bool(map_writes) and g.exit not in g.reach(g.entry, avoid=map_writes)
-    rep.ob("C01.h-context-maps-updated-together", mem, "Memory.__add_triple_context", "triple's context map gets %s on every path" % ctxvar, ok,
-           "" if ok else "a path returns without recording the context in the triple's context map: the bound pattern shapes filter the triple out of that graph", node=addf)
-    rmf2 = mem.func("Memory.__remove_triple_context")
-    g = _CFG(rmf2)
-    cparam = rmf2.args.args[2].arg
-    dels = {g.node_of(n, mem) for n in own_nodes(rmf2) if isinstance(n, ast.Delete) and any(isinstance(t, ast.Subscript) and norm(t.slice) == cparam for t in n.targets)}
-    srem = {g.node_of(c, mem) for c in own_nodes(rmf2) if isinstance(c, ast.Call) and isinstance(c.func, ast.Attribute) and c.func.attr in ("remove", "discard")
-            and isinstance(c.func.value, ast.Subscript) and roles.self_attr(c.func.value.value) == ct and norm(c.func.value.slice) == cparam}
-    for what, nodes, msg in (("del ctxs[%s]" % cparam, dels, "the context stays in the triple's map"), ("self.%s[%s].remove(triple)" % (ct, cparam), srem, "the triple stays in the context's triple set (len() and full iteration still report it)")):
-        ok = bool(nodes) and g.exit not in g.reach(g.entry, avoid=nodes)
-        rep.ob("C01.h-context-maps-updated-together", mem, "Memory.__remove_triple_context", what + " on every path", ok, "" if ok else "a path returns although " + msg, node=rmf2)
+    def on_every_path(entry: str, sites: list) -> bool:
+        """every normal path through method `entry` executes one of the sites, in the method itself or in a method of the class that it calls on that path"""
+        memo: dict = {}
+
+        def surely(name: str) -> bool:
+            if name in memo:
+                return memo[name]
+            memo[name] = False  # a cycle proves nothing
+            f = meths[name]
+            g = CFG(f)
+            nodes = {g.node_of(e.node, mem) for e in sites if e.fn is f}
+            for c in own_nodes(f):
+                if isinstance(c, ast.Call):
+                    r = H.class_callee(meths, cls, f, c)
+                    if r is not None and r[0] != name and surely(r[0]):
+                        nodes.add(g.node_of(c, mem))
+            memo[name] = bool(nodes) and g.exit not in g.reach(g.entry, avoid=nodes)
+            return memo[name]
+
+        return surely(entry)
+
+    where = sorted({e.qual for e in set_adds if e.keys == ("K",)}) or [cls + ".add"]
+    ok = on_every_path("add", [e for e in set_adds if e.keys == ("K",)])
+    rep.ob("C01.h-context-maps-updated-together", mem, where[0], "self.%s[<key of the context>].add(triple) on every path of add()" % ct, ok,
+           "" if ok else "a path through add() returns without adding the triple to the requested context's triple set: len() and the all-unbound pattern miss it", node=meths[where[0].split(".", 1)[1]])
+    where = sorted({e.qual for e in map_writes}) or where
+    ok = on_every_path("add", map_writes)
+    rep.ob("C01.h-context-maps-updated-together", mem, where[0], "the triple's context map gets <key of the context> on every path of add()", ok,
+           "" if ok else "a path through add() returns without recording the context in the triple's context map: the bound pattern shapes filter the triple out of that graph", node=meths[where[0].split(".", 1)[1]])
+    for e in set_adds + map_writes:
+        rep.analysed("rdflib/plugins/stores/memory.py:" + e.qual)
+    # remove side
+    fr = H.StoreFlow(mem, cls, keym)
+    fr.enter("remove", {})
+    set_rems = [e for e in fr.events if e.kind == "mut" and e.how in ("remove", "discard") and e.attr == ct and H.TRIPLE in e.arg and len(e.keys) == 1]
+    if not set_rems:
+        rep.ob("C01.h-context-maps-updated-together", mem, cls + ".remove", "self.%s[ctx].remove(triple)" % ct, False,
+               "remove() never takes the triple out of a context's triple set: len() and full iteration still report it", node=meths["remove"])
+    for G in {id(e.fn): e.fn for e in set_rems}.values():
+        evs = [e for e in set_rems if e.fn is G]
+        qual = evs[0].qual
+        rep.analysed("rdflib/plugins/stores/memory.py:" + qual)
+        g = CFG(G)
+        for kt in sorted({e.texts[-1] for e in evs}):
+            rnodes = {g.node_of(e.node, mem) for e in evs if e.texts[-1] == kt}
+            dnodes = {g.node_of(n, mem) for n in own_nodes(G) if isinstance(n, ast.Delete)
+                      and any(isinstance(t, ast.Subscript) and norm(t.slice) == kt and roles.self_attr(_root(t)) != ct for t in n.targets)}
+            if G is not meths["remove"]:
+                # a method of its own: it is called for one (triple, context) and does both, whatever path it takes
+                verdicts = [("del ctxs[%s]" % kt, dnodes, "the context stays in the triple's map"),
+                            ("self.%s[%s].remove(triple)" % (ct, kt), rnodes, "the triple stays in the context's triple set (len() and full iteration still report it)")]
+                for what, nodes, msg in verdicts:
+                    ok = bool(nodes) and g.exit not in g.reach(g.entry, avoid=nodes)
+                    rep.ob("C01.h-context-maps-updated-together", mem, qual, what + " on every path", ok, "" if ok else "a path returns although " + msg, node=G)
+            else:
+                # written out inside remove(), per context inside its loops: the two updates go together - no path reaches the one without the
+                # other, and none leaves the iteration (or the method) between them
+                for what, first, second, msg in (("del ctxs[%s]" % kt, dnodes, rnodes, "the context stays in the triple's map"),
+                                                 ("self.%s[%s].remove(triple)" % (ct, kt), rnodes, dnodes, "the triple stays in the context's triple set (len() and full iteration still report it)")):
+                    ok = bool(first) and bool(second) and all(_paired(g, mem, G, a, first) for a in second)
+                    rep.ob("C01.h-context-maps-updated-together", mem, qual, what + " whenever the other is done", ok, "" if ok else "a path does one update and not the other: " + msg, node=G)
     # len() and the all-unbound shape read the same per-context set
     lf = mem.func("Memory.__len__")
-    ok = any(isinstance(n, ast.Subscript) and roles.self_attr(n.value) == ct for n in ast.walk(lf))
+    fle = H.StoreFlow(mem, cls, keym)
+    fle.enter("__len__", {})
+    ok = any(e.kind == "read" and e.attr == ct and e.keys == ("K",) for e in fle.events)
     rep.ob("C01.h-context-maps-updated-together", mem, "Memory.__len__", "len() counts self.%s[ctx]" % ct, ok, "" if ok else "__len__ no longer counts the per-context triple set", node=lf)
 
+
+def _paired(g, mod, fn, a: int, partners: set) -> bool:
+    """statement node a goes together with one of `partners`: one of them lies on every path to a and a on every path from it to the end of the
+    iteration / of the method, or the other way round"""
+    head = None
+    if g.nodes[a].ast is not None:
+        for p in mod.parents(g.nodes[a].ast):
+            if isinstance(p, (ast.For, ast.AsyncFor, ast.While)) and id(p) in g.by_ast:
+                head = g.by_ast[id(p)]
+                break
+            if p is fn:
+                break
+    ends = {g.exit} | ({head} if head is not None else set())
+    for b in partners:
+        if b == a:
+            return True
+        if a not in g.reach(g.entry, avoid={b}) and not (ends & g.reach(b, avoid={a})):
+            return True
+        if b not in g.reach(g.entry, avoid={a}) and not (ends & g.reach(a, avoid={b})):
+            return True
+    return False
+
+
+def _rules_f(repo: Repo, rep: Report) -> None:
+    from vlib import h_c01 as H
+    from vlib.cfg import CFG
+
+    gm = repo.mod("rdflib.graph")
     # ------------------------------------------------------------------ (f)
     rep.rule("C01.f-set-operators",
              "Graph.__add__/__mul__/__sub__/__xor__ build exactly union / intersection / difference / symmetric difference "
              "into a FRESH graph on every return; __iadd__/__isub__/set reduce to addN / remove / remove-then-add on self", floor=8)
     want = {"__add__": {"A", "B", "AB"}, "__mul__": {"AB"}, "__sub__": {"A"}, "__xor__": {"A", "B"}}
     venn_cache: dict[str, set] = {}
+    gmeths = gm.methods("Graph")
+    # the names under which itertools.chain is reachable in the module
+    chain_names: set[str] = set()
+    for st in gm.tree.body:
+        if isinstance(st, ast.ImportFrom) and st.module == "itertools":
+            chain_names.update((a.asname or a.name) for a in st.names if a.name == "chain")
+        elif isinstance(st, ast.Import):
+            chain_names.update((a.asname or a.name) + ".chain" for a in st.names if a.name == "itertools")
+
+    def fresh_ctor(fn: ast.FunctionDef, e: ast.AST, depth: int = 0) -> bool:
+        """e, evaluated in method fn, is a graph nobody else holds yet: a constructor call without arguments of the receiver's class
+        (type(self)(), self.__class__()) or of Graph, or a call of a method of the class on the receiver every return of which is such a value"""
+        if not isinstance(e, ast.Call):
+            return False
+        me = H.self_name(fn)
+        if not e.args and not e.keywords and (norm(e.func) in ("type(%s)" % me, "%s.__class__" % me, "Graph")):
+            return True
+        r = H.class_callee(gmeths, "Graph", fn, e)
+        if r is None or depth > 2:
+            return False
+        callee = r[1]
+        rets = [n for n in own_nodes(callee) if isinstance(n, ast.Return)]
+        if not rets:
+            return False
+        g = CFG(callee)
+        if g.exit in g.reach(g.entry, avoid={g.node_of(x, gm) for x in rets}):
+            return False  # a path falls off the end: None
+        binds = H._bindings(callee)
+        for x in rets:
+            v = x.value
+            if isinstance(v, ast.Name) and v.id not in H.param_names(callee) and binds.get(v.id) and all(how == "assign" and fresh_ctor(callee, b, depth + 1) for how, b in binds[v.id]):
+                continue
+            if v is None or not fresh_ctor(callee, v, depth + 1):
+                return False
+        return True
 
     def venn(name: str) -> set:
         if name in venn_cache:
@@ -316,6 +390,7 @@ def run(repo: Repo, rep: Report) -> None:
         params = [a.arg for a in f.args.args]
         A, B = params[0], params[1]
         fresh: set[str] = set()
+        built: set[str] = set()
         regions: set[str] = set()
 
         def expr_regions(e) -> set | None:
@@ -341,6 +416,32 @@ def run(repo: Repo, rep: Report) -> None:
                     return {"B", "AB"}
             return None
 
+        def sources(it: ast.AST) -> list | None:
+            """the operands whose triples the iterable enumerates, one after the other: an operand, a snapshot or iter() of one, itertools.chain of
+            such iterables, a concatenation of such lists"""
+            it = H.unsnap(it)[0]
+            if isinstance(it, ast.Call) and isinstance(it.func, ast.Name) and it.func.id == "iter" and len(it.args) == 1:
+                return sources(it.args[0])
+            if isinstance(it, ast.Name) and it.id in (A, B):
+                return [it.id]
+            parts = None
+            if isinstance(it, ast.Call) and norm(it.func) in chain_names and not it.keywords:
+                parts = list(it.args)
+            elif isinstance(it, ast.Call) and isinstance(it.func, ast.Attribute) and it.func.attr == "from_iterable" and norm(it.func.value) in chain_names \
+                    and len(it.args) == 1 and isinstance(it.args[0], (ast.Tuple, ast.List)):
+                parts = list(it.args[0].elts)
+            elif isinstance(it, ast.BinOp) and isinstance(it.op, ast.Add):
+                parts = [it.left, it.right]
+            if not parts or any(isinstance(p, ast.Starred) for p in parts):
+                return None
+            out: list = []
+            for p in parts:
+                r = sources(p)
+                if r is None:
+                    return None
+                out += r
+            return out
+
         def walk(stmts, cond: set | None):
             for s in stmts:
                 if isinstance(s, ast.Expr) and isinstance(s.value, ast.Constant):
@@ -351,23 +452,24 @@ def run(repo: Repo, rep: Report) -> None:
                         walk(h.body, cond)
                     continue
                 if isinstance(s, ast.Assign) and isinstance(s.targets[0], ast.Name) and isinstance(s.value, ast.Call):
-                    c = s.value
-                    if (isinstance(c.func, ast.Call) and norm(c.func) == "type(%s)" % A and not c.args) or (norm(c.func) in ("Graph",) and not c.args and not c.keywords):
+                    if fresh_ctor(f, s.value):
                         fresh.add(s.targets[0].id)
+                        continue
+                    if H.class_callee(gmeths, "Graph", f, s.value) is not None:
+                        # the result is obtained from a method of the class that does not, on every return, hand out a graph nobody else holds
+                        built.add(s.targets[0].id)
                         continue
                 if isinstance(s, ast.For):
                     src = norm(s.iter)
-                    if src == A:
-                        base = {"A", "AB"}
-                    elif src == B:
-                        base = {"B", "AB"}
-                    elif "namespaces()" in src:
-                        continue
-                    else:
+                    srcs = sources(s.iter)
+                    if srcs is None:
+                        if "namespaces()" in src:
+                            continue
                         raise AnalysisError("Graph.%s: unmodelled loop over %s" % (name, src))
                     var = norm(s.target)
-                    for b in s.body:
-                        handle_body(b, var, src, base)
+                    for one in srcs:
+                        for b in s.body:
+                            handle_body(b, var, one, {"A", "AB"} if one == A else {"B", "AB"})
                     continue
                 if isinstance(s, ast.Return):
                     v = s.value
@@ -391,11 +493,16 @@ def run(repo: Repo, rep: Report) -> None:
         def handle_body(b, var, src, base):
             other = B if src == A else A
             if isinstance(b, ast.Expr) and isinstance(b.value, ast.Call) and isinstance(b.value.func, ast.Attribute) and b.value.func.attr == "add" \
-                    and norm(b.value.func.value) in fresh and norm(b.value.args[0]) == var:
+                    and norm(b.value.func.value) in (fresh | built) and norm(b.value.args[0]) == var:
                 regions.update(base)
                 return
-            if isinstance(b, ast.If) and isinstance(b.test, ast.Compare) and norm(b.test.left) == var and norm(b.test.comparators[0]) == other and not b.orelse:
-                sub = {"AB"} if isinstance(b.test.ops[0], ast.In) else (base - {"AB"})
+            if isinstance(b, ast.If) and isinstance(b.test, ast.Compare) and len(b.test.ops) == 1 and isinstance(b.test.ops[0], (ast.In, ast.NotIn)) \
+                    and norm(b.test.left) == var and norm(b.test.comparators[0]) in (A, B) and not b.orelse:
+                isin = isinstance(b.test.ops[0], ast.In)
+                if norm(b.test.comparators[0]) == other:
+                    sub = (base & {"AB"}) if isin else (base - {"AB"})
+                else:  # a triple enumerated from an operand is in that operand
+                    sub = set(base) if isin else set()
                 for bb in b.body:
                     handle_body(bb, var, src, sub)
                 return
@@ -423,8 +530,7 @@ def run(repo: Repo, rep: Report) -> None:
     ok = any(isinstance(l, ast.For) and norm(l.iter) == "other" and any(isinstance(c, ast.Call) and norm(c.func) == "self.remove" and norm(c.args[0]) == norm(l.target) for c in ast.walk(l)) for l in ast.walk(f))
     rep.ob("C01.f-set-operators", gm, "Graph.__isub__", "for t in other: self.remove(t)", ok, "" if ok else "__isub__ no longer removes every triple of other", node=f)
     f = gm.func("Graph.set")
-    from vlib.cfg import CFG as _CFG2
-    gset = _CFG2(f)
+    gset = CFG(f)
     for what in ("self.remove", "self.add"):
         nodes = {gset.node_of(c, gm) for c in ast.walk(f) if isinstance(c, ast.Call) and norm(c.func) == what}
         okp = bool(nodes) and gset.exit not in gset.reach(gset.entry, avoid=nodes)
@@ -436,11 +542,18 @@ def run(repo: Repo, rep: Report) -> None:
         and calls[0].args[0].elts[2].value is None and [norm(e) for e in calls[0].args[0].elts[:2]] == [norm(e) for e in calls[1].args[0].elts[:2]]
     rep.ob("C01.f-set-operators", gm, "Graph.set", "remove((s, p, None)) then add((s, p, o))", ok, "" if ok else "set() is no longer remove((s,p,None)) followed by add((s,p,o))", node=f)
 
+
+def _rules_g(repo: Repo, rep: Report) -> None:
+    from vlib import h_c01 as H
+
+    gm = repo.mod("rdflib.graph")
     # ------------------------------------------------------------------ (g) pass-through
     rep.rule("C01.g-graph-forwards-pattern",
              "Graph.add/remove/triples/__len__/__contains__ hand the triple/pattern to the store unchanged, with context=self", floor=5)
+
     def store_calls(fn, meth):
         return [c for c in ast.walk(fn) if isinstance(c, ast.Call) and isinstance(c.func, ast.Attribute) and c.func.attr == meth and "store" in norm(c.func.value)]
+
     for q, meth, comps in (("Graph.add", "add", ("s", "p", "o")), ("Graph.remove", "remove", None), ("Graph.triples", "triples", None), ("Graph.__len__", "__len__", None)):
         f = gm.func(q)
         cs = store_calls(f, meth)
@@ -467,9 +580,27 @@ def run(repo: Repo, rep: Report) -> None:
                     detail = "store.%s receives %s" % (meth, norm(a))
         rep.ob("C01.g-graph-forwards-pattern", gm, q, "self.store.%s(<pattern as given>, context=self)" % meth, ok, detail or "forwarded unchanged", node=f)
         rep.analysed("rdflib/graph.py:" + q)
+    # membership: the graph's own triples(pattern) is what is consumed for its first element - by a loop that returns on the first hit, by a
+    # comprehension / generator expression over it, or by any(...) / next(..., default) applied to it
     f = gm.func("Graph.__contains__")
-    ok = any(isinstance(l, ast.For) and norm(l.iter).startswith("self.triples(") for l in ast.walk(f))
+
+    def asks(it: ast.AST) -> bool:
+        it = H.unsnap(it)[0]
+        while isinstance(it, ast.Call) and isinstance(it.func, ast.Name) and it.func.id == "iter" and len(it.args) == 1:
+            it = it.args[0]
+        return isinstance(it, ast.Call) and norm(it.func) == "self.triples"
+
+    ok = any(isinstance(l, (ast.For, ast.comprehension)) and asks(l.iter) for l in ast.walk(f)) \
+        or any(isinstance(c, ast.Call) and isinstance(c.func, ast.Name) and c.func.id in ("any", "next") and c.args and asks(c.args[0]) for c in ast.walk(f))
     rep.ob("C01.g-graph-forwards-pattern", gm, "Graph.__contains__", "membership = any(self.triples(triple))", ok, "" if ok else "__contains__ no longer asks triples()", node=f)
+
+
+def run(repo: Repo, rep: Report) -> None:
+    """the first layer of rules, each group a layer of its own: a rule that loses its anchor on one equivalent view of the tree (a helper that a
+    view inlined away, say) does not take the other groups with it"""
+    rep.extra["explanation"] = EXPLANATION
+    for part in (_rules_abd, _rules_c, _rules_e, _rules_h, _rules_f, _rules_g):
+        _layer(rep, part, repo)
 
 
 def _root(e):
@@ -478,11 +609,13 @@ def _root(e):
     return e
 
 
+from vlib.core import layer as _layer  # noqa: E402
+
 _run_base = run
 
 
 def run(repo: Repo, rep: Report) -> None:  # noqa: F811
-    _run_base(repo, rep)
+    _layer(rep, _run_base, repo)
     gm = repo.mod("rdflib.graph")
     mem = repo.mod("rdflib.plugins.stores.memory")
     # ------------------------------------------------------------------ (i)
@@ -631,7 +764,7 @@ _run_base2 = run
 
 
 def run(repo: Repo, rep: Report) -> None:  # noqa: F811
-    _run_base2(repo, rep)
+    _layer(rep, _run_base2, repo)
     gm = repo.mod("rdflib.graph")
     mem = repo.mod("rdflib.plugins.stores.memory")
     T = repo.typed
@@ -761,3 +894,208 @@ def run(repo: Repo, rep: Report) -> None:  # noqa: F811
                        "compared by value" if not ident else
                        "two RDF terms (%s / %s) are compared by object identity: an equal term that is another Python object (a second Graph object for the same "
                        "name, a term that came out of a parser or the store) fails the test" % (T.type_of(mn, l), T.type_of(mn, r)), node=n)
+
+
+# ---------------------------------------------------------------------------------------------------------------------
+# fourth layer: rules n - s (F204 - F209): the Graph classes as a family (helpers in vlib/h_c01.py)
+
+_run_base3 = run
+
+
+def run(repo: Repo, rep: Report) -> None:  # noqa: F811
+    _layer(rep, _run_base3, repo)
+    from vlib import h_c01 as H
+
+    T = repo.typed
+    fam = H.graph_classes(repo)
+    rep.info["graph_family"] = [f for f, _, _ in fam]
+
+    # ------------------------------------------------------------------ (n) (o)
+    # F207 / F204: add() and addN() (and += which is addN) are two spellings of one operation.  What add() hands to the store besides the
+    # triple - the context object and the quoted flag - is what addN() must hand over for every quad it accepts.
+    rep.rule("C01.n-addN-context-as-add",
+             "for every Graph class that defines add or addN, the two (as resolved through the MRO) hand the store the same kind of context for a "
+             "statement they accept - the receiving graph itself (`self`), or a graph resolved by a method of self (`self._graph(c)`) - and never an "
+             "object taken as it is out of the caller's quad: g.addN([(s, p, o, Graph(store=other, identifier=g.identifier))]) would register a "
+             "Graph bound to ANOTHER store as the context of g's store, and g.store.contexts() / ConjunctiveGraph(g.store) then read the other "
+             "store's triples", floor=3)
+    rep.rule("C01.o-addN-quoted-as-add",
+             "for every Graph class that defines add or addN, every statement addN adds reaches Store.add with the quoted flag that the class's add() "
+             "passes; Store.addN has no quoted parameter and adds with the default (asserted), so a class whose add() passes quoted=True cannot "
+             "delegate addN / += to Store.addN: QuotedGraph(store, f).addN([(s, p, o, f)]) would assert s p o in a formula-aware store while "
+             ".add((s, p, o)) quotes it", floor=3)
+    for full, m, q in fam:
+        if H.own_method(m, q, "add", repo) is None and H.own_method(m, q, "addN", repo) is None:
+            continue
+        ra, rn = H.resolve(repo, full, "add"), H.resolve(repo, full, "addN")
+        if ra is None or rn is None:
+            raise AnalysisError("%s: add / addN not resolvable through the MRO" % full)
+        wa, wn = H.store_writes(repo, ra[0], ra[2]), H.store_writes(repo, rn[0], rn[2])
+        rep.analysed("%s:%s" % (ra[0].rel, ra[1]), "%s:%s" % (rn[0].rel, rn[1]))
+        if not wa and not wn:
+            continue  # neither writes (ReadOnlyGraphAggregate: both raise)
+        ka = sorted({H.ctx_kind(ra[2], w.ctx) for w in wa})
+        kn = sorted({H.ctx_kind(rn[2], w.ctx) for w in wn})
+        bad = None
+        if "raw" in kn or "raw" in ka:
+            w = [w for w in wn if H.ctx_kind(rn[2], w.ctx) == "raw"] or [w for w in wa if H.ctx_kind(ra[2], w.ctx) == "raw"]
+            bad = ("the context object handed to the store (%s) is the caller's own object: a same-named Graph bound to another store becomes a "
+                   "registered context of this store" % (norm(w[0].ctx) if w[0].ctx is not None else "the caller's iterable as given"))
+        elif ka != kn:
+            bad = "add() hands the store a context of kind %s, addN() of kind %s" % (ka, kn)
+        rep.ob("C01.n-addN-context-as-add", rn[0], q + ".addN", "context kinds: add %s / addN %s" % (ka, kn), bad is None,
+               bad or "same context for both spellings", node=(wn[0].call if wn else rn[2]))
+        fa = sorted({str(w.quoted) for w in wa})
+        fn_ = sorted({str(w.quoted) for w in wn})
+        okq = fa == fn_ and "None" not in fa and len(fa) == 1
+        rep.ob("C01.o-addN-quoted-as-add", rn[0], q + ".addN", "quoted flags: add %s / addN %s (via %s)" % (fa, fn_, sorted({w.via for w in wn})), okq,
+               "same quoted flag for both spellings" if okq else
+               "add() stores statements with quoted=%s, addN() (and +=) with quoted=%s: the same statement ends up asserted by one spelling and quoted "
+               "by the other" % ("/".join(fa), "/".join(fn_)), node=(wn[0].call if wn else rn[2]))
+
+    # ------------------------------------------------------------------ (p)
+    # F205: rule c looks at Literal / Graph typed values.  Graph names are IdentifiedNodes - str subclasses - and <> / BNode('') are falsy.
+    rep.rule("C01.p-identified-node-presence-by-identity",
+             "in rdflib/graph.py, rdflib/store.py and the in-memory stores, whether a value whose static type admits an IdentifiedNode (URIRef, "
+             "BNode, ...: str subclasses, so URIRef('') and BNode('') are falsy) is present is decided by `is None` / isinstance, never by its "
+             "truthiness: `if not identifier: identifier = BNode()` renames the graph <> to a fresh blank node, so Graph(store, URIRef('')) and "
+             "a second Graph(store, URIRef('')) - or ConjunctiveGraph(identifier=BNode('')) and its default context - do not hold the same "
+             "triples although they name the same graph", floor=20)
+    idn = "rdflib.term.IdentifiedNode"
+
+    def admits_idnode(mn, e):
+        tf = T.type_of(mn, e)
+        return tf if tf is not None and any(idn in T.mro(c) for c in tf.items) else None
+
+    for mn in ("rdflib.graph", "rdflib.store", "rdflib.plugins.stores.memory"):
+        m_ = repo.mod(mn)
+        nonec = truthy.none_constants(m_)
+        for fq, f in m_.functions():
+            for n in own_nodes(f):
+                if isinstance(n, ast.Compare) and len(n.ops) == 1 and isinstance(n.ops[0], (ast.Is, ast.IsNot)):
+                    l, r = n.left, n.comparators[0]
+                    tgt = l if truthy._is_none(r, nonec) else (r if truthy._is_none(l, nonec) else None)
+                    tf = admits_idnode(mn, tgt) if tgt is not None else None
+                    if tf is not None:
+                        rep.ob("C01.p-identified-node-presence-by-identity", m_, fq, n, True, "presence of %s : %s decided by identity" % (norm(tgt), tf), node=n)
+            seen_e: set = set()
+            for e, owner, kind in truthy.bool_contexts(f, nested=False):
+                if isinstance(e, (ast.Compare, ast.Constant)) or id(e) in seen_e:
+                    continue
+                seen_e.add(id(e))
+                tf = admits_idnode(mn, e)
+                if tf is None:
+                    continue
+                ctx = norm(owner.test) if hasattr(owner, "test") else norm(owner)
+                rep.ob("C01.p-identified-node-presence-by-identity", m_, fq, "%s [in %s: %s]" % (norm(e), kind, ctx[:120]), False,
+                       "truthiness of %s : %s decides, but the terms <> (URIRef('')) and BNode('') are falsy: a graph / context named by one is "
+                       "treated as unnamed" % (norm(e), tf), node=e)
+
+    # ------------------------------------------------------------------ (q)
+    # F206: len() and iteration must count the same thing.
+    rep.rule("C01.q-len-and-triples-read-the-same-source",
+             "for every Graph class that defines triples or __len__, the two (as resolved through the MRO) read the same source: a class whose "
+             "triples() asks the store has a __len__ that asks the store (or counts its own triples()); a class whose triples() merges member graphs "
+             "has a __len__ that counts its own triples() - never the store's count, and never a sum of len(member): a triple held by two members "
+             "is one triple of the aggregate (iteration yields it once), so len(ReadOnlyGraphAggregate([g1, g2])) with (s,p,o) in both must be 1", floor=3)
+    for full, m, q in fam:
+        if H.own_method(m, q, "triples", repo) is None and H.own_method(m, q, "__len__", repo) is None:
+            continue
+        rt, rl = H.resolve(repo, full, "triples"), H.resolve(repo, full, "__len__")
+        if rt is None or rl is None:
+            raise AnalysisError("%s: triples / __len__ not resolvable through the MRO" % full)
+        rep.analysed("%s:%s" % (rt[0].rel, rt[1]), "%s:%s" % (rl[0].rel, rl[1]))
+        tm, tf_ = rt[0], rt[2]
+        tsn = H.self_name(tf_)
+        tk = set()
+        if list(H.store_calls(repo, tm, tf_, ("triples", "triples_choices"))):
+            tk.add("store")
+        for c in own_nodes(tf_):
+            if isinstance(c, ast.Call) and isinstance(c.func, ast.Attribute) and c.func.attr == "triples" and H.is_graph(repo, tm.name, c.func.value) \
+                    and not (isinstance(c.func.value, ast.Name) and c.func.value.id == tsn) and not norm(c.func.value).startswith("super("):
+                tk.add("members")
+        lm, lf = rl[0], rl[2]
+        lsn = H.self_name(lf)
+        lk = set()
+        if list(H.store_calls(repo, lm, lf, ("__len__",))):
+            lk.add("store")
+        for c in own_nodes(lf):
+            if not isinstance(c, ast.Call):
+                continue
+            arg = None
+            if isinstance(c.func, ast.Name) and c.func.id == "len" and len(c.args) == 1:
+                arg = c.args[0]
+            elif isinstance(c.func, ast.Attribute) and c.func.attr == "__len__":
+                arg = c.func.value
+            if arg is not None:
+                if H.is_store(repo, lm.name, arg):
+                    lk.add("store")
+                elif H.is_graph(repo, lm.name, arg) and not (isinstance(arg, ast.Name) and arg.id == lsn):
+                    lk.add("sum-of-members")
+            if isinstance(c.func, ast.Attribute) and isinstance(c.func.value, ast.Name) and c.func.value.id == lsn and c.func.attr in ("triples", "quads", "__iter__"):
+                lk.add("own-triples")
+            if isinstance(c.func, ast.Name) and c.func.id == "iter" and c.args and isinstance(c.args[0], ast.Name) and c.args[0].id == lsn:
+                lk.add("own-triples")
+        for n in own_nodes(lf):
+            if isinstance(n, (ast.For, ast.comprehension)) and isinstance(n.iter, ast.Name) and n.iter.id == lsn:
+                lk.add("own-triples")
+        bad = None
+        if not tk:
+            raise AnalysisError("%s: source of triples() not recognised" % rt[1])
+        if "sum-of-members" in lk:
+            bad = "__len__ adds up len() of member graphs: a triple held by several members is counted once per member, while triples() / iteration yield it once"
+        elif not lk:
+            bad = "the source of __len__ is not recognised (neither the store's count nor a count of this graph's own triples())"
+        elif tk == {"members"} and "store" in lk:
+            bad = "triples() merges the member graphs but __len__ returns the store's count"
+        elif "store" in tk and not (lk & {"store", "own-triples"}):
+            bad = "triples() asks the store but __len__ does not"
+        rep.ob("C01.q-len-and-triples-read-the-same-source", lm, q + ".__len__", "triples() reads %s / __len__ reads %s" % (sorted(tk), sorted(lk)), bad is None,
+               bad or "same source", node=lf)
+
+    # ------------------------------------------------------------------ (r)
+    # F208: a triple (or quad) that a generator of a Graph class yields is a claim "this triple is in the graph".
+    rep.rule("C01.r-yielded-triple-is-read-from-the-graph",
+             "in every generator method of a Graph class, a `yield` of a triple / quad display (a tuple of three or more components) happens only for "
+             "something read from the graph: it sits in the body of a loop over an iterable obtained from self / the store / super(), or in the true "
+             "branch of a test that consults self. A yield of caller-supplied terms under tests on the arguments alone reports a triple whatever the "
+             "graph holds: list(Graph()[s:p:o]) == [(s, p, o)] on an empty graph", floor=10)
+    for full, m, q in fam:
+        for name, f in m.methods(q).items():
+            ys = [y for y in H.is_generator(f) if isinstance(y, ast.Yield) and isinstance(y.value, ast.Tuple) and len(y.value.elts) >= 3]
+            if not ys:
+                continue
+            rep.analysed("%s:%s.%s" % (m.rel, q, name))
+            derived = H.derived_names(f)
+            for y in ys:
+                why = H.reads_graph_before(m, f, y, derived)
+                rep.ob("C01.r-yielded-triple-is-read-from-the-graph", m, "%s.%s" % (q, name), y, why is not None,
+                       why or "the triple is yielded without any read of the graph on the way (no enclosing loop over / test on something obtained from "
+                              "self): it is reported as a member whether or not the graph holds it", node=y)
+
+    # ------------------------------------------------------------------ (s)
+    # F209: the Graph API accepts any 3-sequence (add, set, triples and `in` unpack it); the store API takes a tuple (it hashes it / compares
+    # it with tuples).  Rule g accepts a parameter handed on as it is - exactly the form that breaks for a list.
+    rep.rule("C01.s-store-gets-a-tuple",
+             "every call of a Graph class method to <store>.add / remove / triples / triples_choices passes the triple or pattern as a tuple display "
+             "built here from the unpacked components (or a local assigned from such a display), never the caller's sequence as it is: the Memory "
+             "store uses a fully bound triple as a dict key, so g.remove([s, p, o]) raised TypeError: unhashable type: 'list' while g.add([s, p, o]), "
+             "g.set([s, p, o]), g.triples([s, p, o]) and [s, p, o] in g work", floor=12)
+    for full, m, q in fam:
+        for name, f in m.methods(q).items():
+            binds = None
+            for c in H.store_calls(repo, m, f, ("add", "remove", "triples", "triples_choices")):
+                a = H._arg(c, 0, "triple")
+                if binds is None:
+                    binds = H._bindings(f)
+
+                def is3(e):
+                    return isinstance(e, ast.Tuple) and len(e.elts) == 3 and not any(isinstance(x, ast.Starred) for x in e.elts)
+
+                ok = a is not None and (is3(a) or (isinstance(a, ast.Name) and a.id not in H.param_names(f) and bool(binds.get(a.id))
+                                                    and all(how == "assign" and is3(v) for how, v in binds[a.id])))
+                rep.analysed("%s:%s.%s" % (m.rel, q, name))
+                rep.ob("C01.s-store-gets-a-tuple", m, "%s.%s" % (q, name), "%s.%s(%s, ...)" % (norm(c.func.value), c.func.attr, norm(a) if a is not None else "?"), ok,
+                       "a tuple built from the components" if ok else
+                       "the store receives %s, the caller's sequence as given: a triple written as a list is unhashable in the Memory store's context map "
+                       "(TypeError) although the other Graph methods accept it" % (norm(a) if a is not None else "no triple argument"), node=c)
